@@ -189,6 +189,36 @@ def _jsonable(v):
     return repr(v)
 
 
+def _abstraction_symbols(t, acc=None, seen=None):
+    acc = set() if acc is None else acc
+    seen = set() if seen is None else seen
+    stack = [t]
+    while stack:
+        e = stack.pop()
+        if e.get_id() in seen or not z3.is_app(e):
+            continue
+        seen.add(e.get_id())
+        n = e.decl().name()
+        if n.startswith(("loopfold!", "collect!")):
+            acc.add(n)
+        stack.extend(e.arg(i) for i in range(e.num_args()))
+    return acc
+
+
+def _abstraction_only(ob):
+    """True when the refuted goal is an equality whose two sides name different rule-introduced
+    abstractions (`loopfold!..` of a loop, `collect!..` of a comprehension).  The solver is then free to
+    interpret them differently: the counter-model shows that the two loops were not RECOGNISED as the same
+    computation, not that they differ - a proof failure (undecided), never a violation by itself."""
+    g = ob.goal
+    if g is None or not z3.is_app(g):
+        return False
+    if z3.is_eq(g) and g.num_args() == 2:
+        a, b = _abstraction_symbols(g.arg(0)), _abstraction_symbols(g.arg(1))
+        return a != b
+    return False
+
+
 def run_contract(name, carveouts=(), timeout_ms=10000):
     """Verify one contract on the current tree.  Returns a plain (picklable) dict."""
     cdef = REGISTRY[name]
@@ -240,7 +270,7 @@ def run_contract(name, carveouts=(), timeout_ms=10000):
                         inputs[k] = S.to_python(ob.model, term)
                     except Exception as e:  # noqa: BLE001
                         inputs[k] = f"<unconcretisable: {e}>"
-                entry = {"obligation": ob.name, "kind": ob.kind, "note": ob.note, "inputs": inputs, "replayed": None}
+                entry = {"obligation": ob.name, "kind": ob.kind, "note": ob.note, "inputs": inputs, "replayed": None, "abstraction_only": _abstraction_only(ob)}
                 entry["replay_fn"] = cdef.replay
                 if cdef.replay is not None:
                     try:
